@@ -1,5 +1,6 @@
 import hashlib
 
+from rogw.tranp.errors import Errors
 from rogw.tranp.lang.annotation import injectable
 from rogw.tranp.module.module import Module
 from rogw.tranp.module.loader import IModuleLoader
@@ -70,10 +71,14 @@ class Modules:
 			```
 		"""
 		if module_path not in self.__modules:
-			self.__load_libraries(module_path)
-			self.__modules[module_path] = self.__loader.load(ModulePath(module_path, language))
-			self.__load_dependencies(self.__modules[module_path])
-			self.__loader.preprocess(self.__modules[module_path])
+			try:
+				self.__load_libraries(module_path)
+				self.__modules[module_path] = self.__loader.load(ModulePath(module_path, language))
+				self.__load_dependencies(self.__modules[module_path])
+				self.__loader.preprocess(self.__modules[module_path])
+			except RecursionError as e:
+				# XXX ネストが深過ぎるソースはインタープリターの再帰上限に達するため、アプリケーションのエラーとして報告
+				raise Errors.Fatal(module_path, 'Too deeply nested source') from e
 
 		return self.__modules[module_path]
 
